@@ -247,7 +247,7 @@ def parent(args):
     tier = args.tier
     nsh = int(getattr(mod, "SHARDS", {}).get(tier, 1 if tier == "quick" else 16))
     nsh = max(1, min(nsh, os.cpu_count() or 1))
-    cap = float(getattr(mod, "TIME_CAP", {}).get(tier, 150 if tier == "quick" else 1500))
+    cap = float(getattr(mod, "TIME_CAP", {}).get(tier, 150 if tier == "quick" else 2400))
     os.makedirs(WORK, exist_ok=True)
     tag = "%s-%s-%d-%d" % (args.prop, tier, os.getpid(), int(t0))
     procs = []
@@ -323,8 +323,8 @@ def finish(mod, args, parts, digests, inconclusive, t0, nsh):
     harness_errors = [e for p in parts for e in p["harness_errors"]]
     if harness_errors:
         inconclusive.append("harness error: " + harness_errors[0]["traceback"].strip().splitlines()[-1])
-    if any(p["truncated"] for p in parts):
-        inconclusive.append("time cap reached before the workload was complete")
+    cap = float(getattr(mod, "TIME_CAP", {}).get(args.tier, 150 if args.tier == "quick" else 2400))
+    truncated = any(p["truncated"] for p in parts)      # the region / route / probe quotas below decide whether what was explored suffices for a verdict
     # quotas
     mult = 1 if tier == "quick" else int(getattr(mod, "THOROUGH_QUOTA_MULT", 4))
     for reg, q in getattr(mod, "REGIONS", {}).items():
@@ -433,6 +433,7 @@ def finish(mod, args, parts, digests, inconclusive, t0, nsh):
             "unknown_violation_classes": unknown, "shards": nsh, "inconclusive_reasons": inconclusive,
             "verdict": verdict, "tree": dict(git_rev(tree()), path=tree()),
             "thorough_depth": (max(1.0, float(os.environ.get("VERIF_DEPTH", getattr(mod, "THOROUGH_DEPTH", 1)))) if tier == "thorough" else None),
+            "truncated_by_time_cap": bool(truncated), "time_cap_s_per_shard": cap,
             **extra,
         },
         "assumptions": list(getattr(mod, "ASSUMPTIONS", [])),
@@ -449,6 +450,8 @@ def finish(mod, args, parts, digests, inconclusive, t0, nsh):
     if not unknown and inconclusive:
         for r in inconclusive[:10]:
             print("INCONCLUSIVE property=%s reason=%s" % (prop, r.replace("\n", " ")[:300]))
+    if truncated:
+        print("NOTE property=%s time cap of %.0f s per shard reached: the planned workload was cut short after %d cases; the region, route and probe quotas decide the verdict" % (prop, cap, evaluations))
     print("%s %s tier=%s seed=%s cases=%d distinct=%d clause_evals=%d known=%d wall=%.1fs" % (
         prop, verdict.upper(), tier, args.seed, evaluations, distinct, ev["coverage"]["oracle_clause_evaluations"],
         len(known_hits), wall))
